@@ -1,4 +1,5 @@
 import BlochVerif.Parse.Model
+import BlochVerif.Generated.ParserConsts
 import BlochVerif.Parse.PrattCore
 import BlochVerif.Generated.BindingTable
 /-!
@@ -100,5 +101,23 @@ example : PrattCore.stops generatedLbp 0 [] := trivial
 /-- the rendering of `-(f(1)[2].3)` needs no parentheses and parses back: postfix forms bind tighter than prefix -/
 example : PrattCore.rend generatedLbp 0 (.neg (.member (.index (.call1 (.num 0) (.num 1)) (.num 2)) 3)) =
     [.neg, .num 0, .lp, .num 1, .rp, .lb, .num 2, .rb, .dot 3] := by decide
+
+end BlochVerif.Props.C14
+
+/-! ## the parser's constants are the source's (translator output, regenerated on every run) -/
+namespace BlochVerif.Props.C14
+open BlochVerif BlochVerif.Parse BlochVerif.Lex
+
+def sameSet (a b : List TokenType) : Bool := a.all (b.contains ·) && b.all (a.contains ·)
+
+/-- `Generated/ParserConsts.lean` is rewritten on every run from `parser.hpp`/`parser.cpp`: the model's nesting limit is
+`kMaxNestingDepth`, and each of the four places where the parser enumerates the primitive type keywords (type lookahead,
+`for` initialiser, `parseType`, `parsePrimitiveType`) lists exactly the model's `primTypeToks` (the lookahead also `void`) -/
+theorem parser_constants_are_the_source_constants :
+    maxNestingDepth = Generated.maxNestingDepthSrc ∧
+    Generated.primitiveTypeKeywordSites.map (·.1) = ["isTypeAhead", "parseFor", "parseType", "parsePrimitiveType"] ∧
+    Generated.primitiveTypeKeywordSites.all (fun s => sameSet (s.2.filter (· != TokenType.Void)) primTypeToks) = true ∧
+    (Generated.primitiveTypeKeywordSites.filter (fun s => s.2.contains TokenType.Void)).map (·.1) = ["isTypeAhead"] := by
+  decide
 
 end BlochVerif.Props.C14
